@@ -204,4 +204,44 @@ mutual
       | (k, c) :: rest => walk fuel c (a ++ [.named k]) ++ walkNamed fuel rest a
 end
 
+/-! ### Executable well-formedness check (the hypothesis of C19's `resolve_pathOf`) -/
+
+def wfNodeB (o : Obj) : Bool :=
+  (List.range o.content.length).all (fun i =>
+    match o.content[i]? with
+    | some c =>
+      match c.validName with
+      | some n => n.toList != Comp.parentId && Obj.lastNamedIdx o.content n == some i
+      | none => true
+    | none => true)
+  && o.namedOnly.all (fun kv =>
+      kv.2.validName == some kv.1 && kv.1.toList != Comp.parentId
+      && Obj.lastNamedIdx o.content kv.1 == none
+      && (o.namedOnly.filter (fun kv' => kv'.1 == kv.1)).length == 1)
+
+mutual
+  def wfTreeB (fuel : Nat) (o : Obj) : Bool :=
+    match fuel with
+    | 0 => false
+    | fuel + 1 => wfNodeB o && wfListB fuel o.content && wfListB fuel (o.namedOnly.map (·.2))
+  def wfListB (fuel : Nat) (l : List Obj) : Bool :=
+    match fuel with
+    | 0 => false
+    | fuel + 1 =>
+      match l with
+      | [] => true
+      | c :: rest => wfTreeB fuel c && wfListB fuel rest
+end
+
+/-- Executable form of `Comp.WF` / `Path.WF`. -/
+def Comp.wfB : Comp → Bool
+  | .idx n => n ≤ usizeMax
+  | .name s => (parseUsize s).isNone && !(s.contains '.')
+
+def Path.wfB (p : Path) : Bool :=
+  p.comps.all Comp.wfB && (!p.rel || !p.comps.isEmpty) &&
+  (p.rel || match p.comps.head? with
+    | some c => !c.toText.isEmpty
+    | none => true)
+
 end Ink
